@@ -55,8 +55,79 @@ fn valid_model(c: &Candle) -> bool {
 		&& (c.volume.is_nan() || c.volume >= 0.0)
 }
 
+/// A user's candle type with its own typical and median price (last trade / opening price): the provided
+/// methods that are documented in terms of other methods must go through the user's overrides.
+struct OwnPrices(Candle);
+impl OHLCV for OwnPrices {
+	fn open(&self) -> V {
+		self.0.open
+	}
+	fn high(&self) -> V {
+		self.0.high
+	}
+	fn low(&self) -> V {
+		self.0.low
+	}
+	fn close(&self) -> V {
+		self.0.close
+	}
+	fn volume(&self) -> V {
+		self.0.volume
+	}
+	fn tp(&self) -> V {
+		self.0.close
+	}
+	fn hl2(&self) -> V {
+		self.0.open
+	}
+}
+/// ... and one with its own volumed price (turnover reported by the exchange)
+struct OwnTurnover(Candle);
+impl OHLCV for OwnTurnover {
+	fn open(&self) -> V {
+		self.0.open
+	}
+	fn high(&self) -> V {
+		self.0.high
+	}
+	fn low(&self) -> V {
+		self.0.low
+	}
+	fn close(&self) -> V {
+		self.0.close
+	}
+	fn volume(&self) -> V {
+		self.0.volume
+	}
+	fn volumed_price(&self) -> V {
+		self.0.open * self.0.volume
+	}
+}
+fn check_user_types(c: &Candle, f: &mut Vec<(String, String)>) {
+	let u = OwnPrices(*c);
+	let same = |a: V, b: V| a.to_bits() == b.to_bits() || (a.is_nan() && b.is_nan());
+	if !same(u.volumed_price(), u.tp() * u.volume()) {
+		f.push(("user-type/volumed_price-is-not-tp-times-volume".into(), format!("tp() = {:e}, volume() = {:e}, volumed_price() = {:e}", u.tp(), u.volume(), u.volumed_price())));
+	}
+	for (kind, want) in [(Source::TP, u.tp()), (Source::HL2, u.hl2()), (Source::VolumedPrice, u.volumed_price()), (Source::Close, u.close()), (Source::Open, u.open()), (Source::High, u.high()), (Source::Low, u.low()), (Source::Volume, u.volume())] {
+		if !same(u.source(kind), want) {
+			f.push((format!("user-type/source({kind:?})-bypasses-the-method"), format!("source = {:e}, method = {want:e}", u.source(kind))));
+		}
+	}
+	let t = OwnTurnover(*c);
+	if !same(t.source(Source::VolumedPrice), t.volumed_price()) {
+		f.push(("user-type/source(VolumedPrice)-bypasses-the-method".into(), format!("source = {:e}, method = {:e}", t.source(Source::VolumedPrice), t.volumed_price())));
+	}
+	// through dynamic dispatch as well
+	let d: &dyn OHLCV = &u;
+	if !same(d.volumed_price(), u.tp() * u.volume()) || !same(d.source(Source::TP), u.tp()) {
+		f.push(("user-type/dyn-dispatch-differs".into(), String::new()));
+	}
+}
+
 fn check_candle(c: &Candle, pcs: &[V]) -> Vec<(String, String)> {
 	let mut f = vec![];
+	check_user_types(c, &mut f);
 	let e = eps();
 	let (o, h, l, cl, v) = (c.open as f64, c.high as f64, c.low as f64, c.close as f64, c.volume as f64);
 	let tinyabs = if IS_F32 { 3e-45 } else { 1e-323 };
